@@ -48,6 +48,7 @@ def handle (st : DState) (line : String) : DState × String :=
   | ["pipeline", proto, workers, _setup, data] => (st, pipelineLine proto workers data)
   | ["cachestress", seed, g, overlap, _, _] => (st, locksLine false seed g overlap)
   | ["cachestress9", seed, g, overlap, _, _] => (st, locksLine true seed g overlap)
+  | ["producerk", mode, buf, seed, n, script] => (st, producerkLine mode buf seed n script)
   | ["producerx", rm, n, w, d] => (st, producerxLine rm n w d)
   | ["producer", proto, rm, seed, n, events] => (st, producerLine proto rm seed n events)
   | ["options", env, file, args] => (st, optionsLine env file args)
